@@ -254,7 +254,7 @@ def parse_coq_values(text):
         if idx < 0:
             idx = body.rfind(" : ")
         body = body[:idx]
-        body = body.replace("%N", "").replace("%nat", "").replace("%Z", "").replace("%positive", "")
+        body = body.replace("%string", "").replace("%N", "").replace("%nat", "").replace("%Z", "").replace("%positive", "")
         vals.append(_parse_term(body))
     return vals
 
